@@ -232,6 +232,9 @@ func (a *AttributeExpr) Validate(ctx string, parent eval.Expression) *eval.Valid
 	} else if ar := AsArray(a.Type); ar != nil {
 		elemType := ar.ElemType
 		verr.Merge(elemType.Validate(ctx, a))
+	} else if mp := AsMap(a.Type); mp != nil {
+		verr.Merge(mp.KeyType.Validate(ctx, a))
+		verr.Merge(mp.ElemType.Validate(ctx, a))
 	} else if u := AsUnion(a.Type); u != nil {
 		for _, ut := range u.Values {
 			verr.Merge(ut.Attribute.Validate(ctx, parent))
